@@ -59,7 +59,7 @@ package biscuit
 //@ ensures refuses_sealed: !hasNextSecret(b.container.Proof) ==> err != nil
 //@ ensures wf_blocks: err == nil ==> res != nil && wfBlock(res.authority) && res.symbols != nil && len(res.blocks) == len(b.blocks) + 1 && (forall i int :: { res.blocks[i] } 0 <= i && i < len(res.blocks) ==> wfBlock(res.blocks[i]))
 //@ ensures wf_envelope: err == nil ==> wfContainer(res.container) && len(res.blocks) == len(res.container.Blocks)
-//@ ensures content_same[C09]: err == nil ==> *res.authority == *b.authority && (forall i int :: { res.blocks[i] } 0 <= i && i < len(b.blocks) ==> *res.blocks[i] == *b.blocks[i]) && res.blocks[len(b.blocks)] == block
+//@ ensures content_same[C08 C09]: err == nil ==> *res.authority == *b.authority && (forall i int :: { res.blocks[i] } 0 <= i && i < len(b.blocks) ==> *res.blocks[i] == *b.blocks[i]) && res.blocks[len(b.blocks)] == block
 //@ ensures content_kept: err == nil && contentWF(b) ==> contentWF(res)
 //@ ensures keyid[C16]: err == nil ==> optEq(res.container.RootKeyId, b.container.RootKeyId)
 //@ ensures envelope_prefix: err == nil ==> res.container.Authority == b.container.Authority && len(res.container.Blocks) == len(b.container.Blocks) + 1 && (forall i int :: { res.container.Blocks[i] } 0 <= i && i < len(b.container.Blocks) ==> res.container.Blocks[i] == b.container.Blocks[i])
@@ -82,8 +82,8 @@ package biscuit
 //@ ensures sealed: err == nil ==> hasFinalSig(res.container.Proof) && !hasNextSecret(res.container.Proof)
 //@ ensures seal_signs[C09]: err == nil && *lastSB(b.container).NextKey.Algorithm >= 0 ==> bview(finalSig(res.container.Proof)) == edSign(privOfSeed(bview(nextSecret(b.container.Proof))), sealPayload(lastSB(b.container)))
 //@ ensures seal_verifies[C09]: err == nil && proofOK(b.container) && *lastSB(b.container).NextKey.Algorithm >= 0 ==> proofOK(res.container)
-//@ ensures content_same[C09]: err == nil ==> *res.authority == *b.authority && (forall i int :: { res.blocks[i] } 0 <= i && i < len(b.blocks) ==> *res.blocks[i] == *b.blocks[i])
-//@ ensures symbols_same[C09]: err == nil ==> len(*res.symbols) == len(*b.symbols) && (forall j int :: { (*res.symbols)[j] } 0 <= j && j < len(*b.symbols) ==> (*res.symbols)[j] == (*b.symbols)[j])
+//@ ensures content_same[C08 C09]: err == nil ==> *res.authority == *b.authority && (forall i int :: { res.blocks[i] } 0 <= i && i < len(b.blocks) ==> *res.blocks[i] == *b.blocks[i])
+//@ ensures symbols_same[C08 C09]: err == nil ==> len(*res.symbols) == len(*b.symbols) && (forall j int :: { (*res.symbols)[j] } 0 <= j && j < len(*b.symbols) ==> (*res.symbols)[j] == (*b.symbols)[j])
 
 // ---------------------------------------------------------------------------
 // converters, token -> wire (C07 C10)
